@@ -3,6 +3,8 @@ import Smtb.Properties.C03EndToEnd
 import Smtb.Properties.C01
 import Smtb.Properties.C02
 import Smtb.Properties.C06
+import Smtb.Properties.C05
+import Smtb.Properties.TraceSound2
 import Mathlib.Tactic.NormNum.Prime
 /-!
 # T-trace-kernel: theorems about the constraint list recorded from the Go code
@@ -126,10 +128,43 @@ theorem toReducedBigEndian_meaning (n : ℕ) (t : List TLine) (res : List TV)
 
 end gadgets
 
+section poseidon
+variable {p : ℕ} [NeZero p]
+
+/-- **Poseidon2, gate by gate** (no opaque line, every round constant and MDS entry a `c:<n>`
+operand of the recorded list, any modulus `≠ 0`): the constraints recorded from
+`poseidon.Poseidon2.DefineGadget` are satisfiable with result `out` iff `out` is the reference
+Poseidon hash (x⁵ S-box, 8 full + 57 partial rounds, the circomlib / iden3 constants) of the two
+inputs. -/
+theorem poseidon2_meaning (t : List TLine) (res : TV)
+    (ht : traceOf [] tracePoseidon2 = t) (hr : resultOf [] tracePoseidon2 = res)
+    (H : ZMod p → ZMod p → ZMod p) (K : List ℕ → List (ZMod p) → List (ZMod p))
+    (a b out : ZMod p) :
+    (∃ env : Env p, InputsAre env [a, b] ∧ denote p H K env t ∧ evalTV env res = out) ↔
+      ((Poseidon.hash2 p a.val b.val : ℕ) : ZMod p) = out := by
+  subst ht hr
+  rw [← Smtb.C05.poseidon2_sat a b (· = out),
+    Smtb.Properties.TraceSound2.poseidon2_trace_iff H K a b]
+
+/-- **Poseidon1, gate by gate** (8 full + 56 partial rounds, width 2). -/
+theorem poseidon1_meaning (t : List TLine) (res : TV)
+    (ht : traceOf [] tracePoseidon1 = t) (hr : resultOf [] tracePoseidon1 = res)
+    (H : ZMod p → ZMod p → ZMod p) (K : List ℕ → List (ZMod p) → List (ZMod p))
+    (a out : ZMod p) :
+    (∃ env : Env p, InputsAre env [a] ∧ denote p H K env t ∧ evalTV env res = out) ↔
+      ((Poseidon.hash1 p a.val : ℕ) : ZMod p) = out := by
+  subst ht hr
+  rw [← Smtb.C05.poseidon1_sat a (· = out),
+    Smtb.Properties.TraceSound2.poseidon1_trace_iff H K a]
+
+end poseidon
+
 #print axioms insertion_circuit_meaning
 #print axioms deletion_circuit_meaning
 #print axioms insertionProof_meaning
 #print axioms deletionProof_meaning
 #print axioms toReducedBigEndian_meaning
+#print axioms poseidon2_meaning
+#print axioms poseidon1_meaning
 
 end Smtb.Properties.GoTrace
